@@ -108,6 +108,7 @@ def body(chk, exe, scratch, proof_ok, detail):
     groups = {}        # signature -> [what of the first, ops...]
     base_leak_owners, always_leaking = {}, set()
     symptom_sig = {}
+    base_symptom = {}
 
     def report(sig, op, what):
         g = groups.setdefault(sig, [what, []])
@@ -196,7 +197,16 @@ def body(chk, exe, scratch, proof_ok, detail):
             # the same symptom seen earlier under a single failing allocation keeps that signature when it shows again
             # under "all allocations from k on fail" (where the first failing allocation says little)
             symptom = re.sub(r"\d+", "#", "; ".join(bad))
-            if mode in ("from", "mask") and symptom in symptom_sig:
+            if mode == "none":
+                # nothing was refused: the symptom belongs to the scenario's scripted system-call failure (or to the plain call sequence)
+                if sig is None:
+                    calls = [t.strip("[]") for t in c.split(" trace=", 1)[1].split() if t.startswith("[")] if " trace=" in c else []
+                    armed = [(j, t.split(",")[1]) for j, t in enumerate(calls) if t.startswith("sysfail,") and j + 1 < len(calls)]
+                    sig = "%s@sysfail-%s" % (resfam.func_of(calls[armed[0][0] + 1]), armed[0][1]) if armed else "%s@no-failure" % name
+                base_symptom[(name, symptom)] = sig
+            elif (name, symptom) in base_symptom:
+                sig = base_symptom[(name, symptom)]       # shows without any refused allocation as well
+            elif mode in ("from", "mask") and symptom in symptom_sig:
                 sig = symptom_sig[symptom]
             else:
                 symptom_sig.setdefault(symptom, sig)
